@@ -29,7 +29,7 @@ import DymVerif.Lemmas.CoreXPunish
 import DymVerif.Lemmas.CoreForkSpec
 import DymVerif.Lemmas.CoreLevOwn
 namespace DymVerif.C07X
-open DymVerif DymVerif.Core DymVerif.Core.Roles
+open DymVerif DymVerif.Core DymVerif.Core.Roles DymVerif.Core.XPunish
 
 -- ================================================================================================
 -- the guarantee that holds
